@@ -349,7 +349,16 @@ class DFXPWriter(BaseWriter):
 
         # Loop through all captions/nodes and apply transformations to layout
         # in function of the provided or default settings
+        if self.relativize and caption_set.layout_info:
+            caption_set.layout_info = caption_set.layout_info.as_percentage_of(
+                self.video_width, self.video_height)
         for lang in langs:
+            # the language-level layout (the <div>'s region) must not be
+            # written in absolute units either
+            lang_layout = caption_set.get_layout_info(lang)
+            if self.relativize and lang_layout:
+                caption_set.set_layout_info(lang, lang_layout.as_percentage_of(
+                    self.video_width, self.video_height))
             for caption in caption_set.get_captions(lang):
                 caption.layout_info = self._relativize_and_fit_to_screen(
                     caption.layout_info)
